@@ -48,6 +48,9 @@ def chk_project(inp):
         p = B.rand_se3(rng, inp.get("rot_kind"), tmag=(-2, 3))
         if inp.get("gimbal") and k % 2:
             p[:3, :3] = _Raxis(2, rng.uniform(-3, 3)) @ _Raxis(1, math.pi / 2 * (1 if k % 4 == 1 else -1)) @ _Raxis(0, rng.uniform(-3, 3))
+        if inp.get("flat_positions"):
+            # positions already exactly in the plane, attitudes genuinely 3-D (2-D localiser with an IMU attitude; seed C14-c)
+            p[AXIS[inp["plane"]], 3] = 0.0
         poses.append(p)
     ts = np.cumsum(rng.uniform(0.05, 0.2, size=n))
     t = PoseTrajectory3D(poses_se3=[p.copy() for p in poses], timestamps=ts.copy())
@@ -130,13 +133,14 @@ def _cases(tier, seed):
     for it in range(K):
         yield ("project", {"seed": int(rng.integers(0, 10**9)), "n": int(rng.integers(1, 40)), "plane": ["xy", "xz", "yz"][it % 3],
                            "from_poses": bool(it % 2), "read_first": bool(it % 4 < 2), "gimbal": it % 5 == 0,
+                           "flat_positions": it % 4 == 3,
                            "rot_kind": [None, "uniform", "nearpi", "tiny", "axis"][it % 5]})
 
 
 def bounded(tier, seed):
     return B.run(CHECKERS, _cases(tier, seed),
                  rule="planar poses with every heading on a %d-degree grid in (-180, 180] plus random, three planes; general 3-D "
-                      "poses incl. gimbal-lock attitudes (pitch +-90 deg), both storage modes, cached views read before / not; "
+                      "poses incl. gimbal-lock attitudes (pitch +-90 deg) and positions already in the plane under 3-D attitudes, both storage modes, cached views read before / not; "
                       "validity via check()" % (1 if tier == "thorough" else 3), bounds={"seed": seed})
 
 
